@@ -178,8 +178,33 @@ def bare_index(fn, target, where):
     return hits[0]
 
 
-def alt_inherited(tree):
-    """ComplexModelMeta.__new__: for b in cls_bases: ... _type_info_alt.update(b._type_info_alt)"""
+def alt_inherited(tree, xml):
+    """are the alternate keys (sub_name / sub_ns) of INHERITED members known to the reader of a subclass?
+    complex_from_element consults either flat_type_info.alt -- filled by get_flat_type_info from the flattened member
+    table, parents included -- or cls._type_info_alt, which ComplexModelMeta.__new__ starts from the tables of the bases
+    (for b in cls_bases: ... _type_info_alt.update(b._type_info_alt)) or not."""
+    rd = find_function(xml, ['XmlDocument', 'complex_from_element'])
+    chains = [attr_chain(c.func) for c in ast.walk(rd) if isinstance(c, ast.Call) and isinstance(c.func, ast.Attribute) and c.func.attr == 'get']
+    alts = set(tuple(c[:-1]) for c in chains if c and len(c) == 3 and c[1] in ('alt', '_type_info_alt'))
+    if alts == {('flat_type_info', 'alt')}:
+        if not any(isinstance(x, ast.Assign) and any(is_name(t, 'flat_type_info') for t in x.targets) and isinstance(x.value, ast.Call)
+                   and (attr_chain(x.value.func) or [None])[-1] == 'get_flat_type_info' for x in ast.walk(rd)):
+            raise TranslateError('complex_from_element: flat_type_info is not cls.get_flat_type_info(cls)')
+        fn = find_function(tree, ['ComplexModelBase', 'get_flat_type_info'])
+        made = [x for x in ast.walk(fn) if isinstance(x, ast.Assign) and len(x.targets) == 1 and isinstance(x.targets[0], ast.Name)
+                and isinstance(x.value, ast.Call) and is_name(x.value.func, '_get_flat_type_info')]
+        if len(made) != 1:
+            raise TranslateError('get_flat_type_info: the flattened table is not one _get_flat_type_info(...) result')
+        tab = made[0].targets[0].id
+        for loop in ast.walk(fn):
+            if isinstance(loop, ast.For) and isinstance(loop.iter, ast.Call) and attr_chain(loop.iter.func) == [tab, 'items']:
+                for x in ast.walk(loop):
+                    if isinstance(x, ast.Assign) and len(x.targets) == 1 and isinstance(x.targets[0], ast.Subscript) \
+                            and attr_chain(x.targets[0].value) == [tab, 'alt']:
+                        return True
+        return False
+    if alts != {('cls', '_type_info_alt')}:
+        raise TranslateError('complex_from_element: unrecognised alternate-key lookups %r' % sorted(alts))
     fn = find_function(tree, ['ComplexModelMeta', '__new__'])
     if not any(isinstance(s, ast.Assign) and any(is_name(t, '_type_info_alt') for t in s.targets) for s in ast.walk(fn)):
         raise TranslateError('ComplexModelMeta.__new__ does not create _type_info_alt')
@@ -193,40 +218,85 @@ def alt_inherited(tree):
     return False
 
 
+def _dict_builder(v):
+    """(key expr, value expr, loop variable name, iterable expr) of dict([(k, v) for x in it]) / dict((k, v) for x in it) /
+    {k: v for x in it} -- the spellings that build the same dictionary (one generator, no condition); else None"""
+    if isinstance(v, ast.DictComp):
+        k, val, gens = v.key, v.value, v.generators
+    elif isinstance(v, ast.Call) and is_name(v.func, 'dict') and len(v.args) == 1 and not v.keywords \
+            and isinstance(v.args[0], (ast.ListComp, ast.GeneratorExp)) and isinstance(v.args[0].elt, (ast.Tuple, ast.List)) \
+            and len(v.args[0].elt.elts) == 2:
+        (k, val), gens = v.args[0].elt.elts, v.args[0].generators
+    else:
+        return None
+    if len(gens) != 1 or gens[0].ifs or gens[0].is_async or not isinstance(gens[0].target, ast.Name):
+        return None
+    return k, val, gens[0].target.id, gens[0].iter
+
+
+def _qualified_name_of(e):
+    """the variable V when e spells '{' + V.__namespace__ + '}' + V.__type_name__ ("{%s}%s" % (..), "{{{}}}{}".format(..),
+    an f-string); else None"""
+    parts = None
+    if isinstance(e, ast.BinOp) and isinstance(e.op, ast.Mod) and isinstance(e.left, ast.Constant) and e.left.value == '{%s}%s' \
+            and isinstance(e.right, ast.Tuple) and len(e.right.elts) == 2:
+        parts = e.right.elts
+    elif isinstance(e, ast.Call) and isinstance(e.func, ast.Attribute) and e.func.attr == 'format' and not e.keywords \
+            and isinstance(e.func.value, ast.Constant) and e.func.value.value in ('{{{}}}{}', '{{{0}}}{1}') and len(e.args) == 2:
+        parts = e.args
+    elif isinstance(e, ast.JoinedStr) and len(e.values) == 4 \
+            and isinstance(e.values[0], ast.Constant) and e.values[0].value == '{' \
+            and isinstance(e.values[2], ast.Constant) and e.values[2].value == '}' \
+            and all(isinstance(x, ast.FormattedValue) and x.conversion == -1 and x.format_spec is None for x in (e.values[1], e.values[3])):
+        parts = [e.values[1].value, e.values[3].value]
+    if parts is None:
+        return None
+    c0, c1 = attr_chain(parts[0]), attr_chain(parts[1])
+    if c0 and c1 and len(c0) == 2 and len(c1) == 2 and c0[0] == c1[0] and c0[1] == '__namespace__' and c1[1] == '__type_name__':
+        return c0[0]
+    return None
+
+
 def hdr_key_qualified(fn):
-    """Soap11.deserialize: in_header_dict = dict([(element.tag, element) for ...]) looked up with
-    "{%s}%s" % (head_class.__namespace__, head_class.__type_name__): True; keyed / looked up by the local name: False"""
-    keyed = looked = None
+    """Soap11.deserialize: the header blocks of ctx.in_header_doc are put in a dictionary keyed by element.tag and looked up
+    with '{' + head_class.__namespace__ + '}' + head_class.__type_name__: True; keyed / looked up by the local name: False.
+    Read up to the names of the locals and the equivalent spellings of the dictionary construction and of the key."""
+    dicts = []
     for s in ast.walk(fn):
-        if isinstance(s, ast.Assign) and len(s.targets) == 1 and is_name(s.targets[0], 'in_header_dict'):
-            v = s.value
-            if not (isinstance(v, ast.Call) and is_name(v.func, 'dict') and len(v.args) == 1
-                    and isinstance(v.args[0], (ast.ListComp, ast.GeneratorExp)) and isinstance(v.args[0].elt, ast.Tuple)
-                    and len(v.args[0].elt.elts) == 2):
-                raise TranslateError('Soap11.deserialize: in_header_dict is not dict([(key, element) for ...])')
-            k = v.args[0].elt.elts[0]
-            if attr_chain(k) == ['element', 'tag']:
-                keyed = True
-            elif any(isinstance(c, ast.Call) and isinstance(c.func, ast.Attribute) and c.func.attr in ('split', 'rsplit', 'partition')
-                     for c in ast.walk(k)) or any(isinstance(c, ast.Attribute) and c.attr == 'localname' for c in ast.walk(k)):
-                keyed = False
-            else:
-                raise TranslateError('Soap11.deserialize: unrecognised header dictionary key')
-        if isinstance(s, ast.Assign) and len(s.targets) == 1 and is_name(s.targets[0], 'nsval'):
-            v = s.value
-            if isinstance(v, ast.BinOp) and isinstance(v.op, ast.Mod) and isinstance(v.left, ast.Constant) and v.left.value == '{%s}%s' \
-                    and isinstance(v.right, ast.Tuple) and [attr_chain(e) for e in v.right.elts] == \
-                    [['head_class', '__namespace__'], ['head_class', '__type_name__']]:
-                looked = True
-    if keyed is None:
-        raise TranslateError('Soap11.deserialize: in_header_dict not found')
-    gets = [c for c in ast.walk(fn) if isinstance(c, ast.Call) and attr_chain(c.func) == ['in_header_dict', 'get']]
-    if len(gets) != 1:
-        raise TranslateError('Soap11.deserialize: expected one in_header_dict.get(...)')
+        if isinstance(s, ast.Assign) and len(s.targets) == 1 and isinstance(s.targets[0], ast.Name):
+            b = _dict_builder(s.value)
+            if b is not None and attr_chain(b[3]) == ['ctx', 'in_header_doc']:
+                dicts.append((s.targets[0].id, b))
+    if len(dicts) != 1:
+        raise TranslateError('Soap11.deserialize: expected one dictionary built from ctx.in_header_doc '
+                             '(dict([(key, element) for ...]) or {key: element for ...}), found %d' % len(dicts))
+    dname, (k, val, var, _) = dicts[0]
+    if not is_name(val, var):
+        raise TranslateError('Soap11.deserialize: the header dictionary does not map to the header elements')
+    if attr_chain(k) == [var, 'tag']:
+        keyed = True
+    elif any(isinstance(c, ast.Call) and isinstance(c.func, ast.Attribute) and c.func.attr in ('split', 'rsplit', 'partition')
+             for c in ast.walk(k)) or any(isinstance(c, ast.Attribute) and c.attr == 'localname' for c in ast.walk(k)):
+        keyed = False
+    else:
+        raise TranslateError('Soap11.deserialize: unrecognised header dictionary key')
+    gets = [c for c in ast.walk(fn) if isinstance(c, ast.Call) and attr_chain(c.func) == [dname, 'get']]
+    subs = [c for c in ast.walk(fn) if isinstance(c, ast.Subscript) and is_name(c.value, dname)]
+    if len(gets) != 1 or subs or not gets[0].args or gets[0].keywords:
+        raise TranslateError('Soap11.deserialize: expected one %s.get(key[, None]) and no other read of it' % dname)
+    if len(gets[0].args) == 2 and not (isinstance(gets[0].args[1], ast.Constant) and gets[0].args[1].value is None):
+        raise TranslateError('Soap11.deserialize: header lookup with a default other than None')
     arg = gets[0].args[0]
-    if is_name(arg, 'nsval') and looked:
+    if isinstance(arg, ast.Name):
+        # a local bound once to the key expression
+        binds = [x.value for x in ast.walk(fn) if isinstance(x, ast.Assign) and any(is_name(t, arg.id) for t in x.targets)]
+        if len(binds) != 1:
+            raise TranslateError('Soap11.deserialize: the header lookup key %s is not bound exactly once' % arg.id)
+        arg = binds[0]
+    if _qualified_name_of(arg) is not None:
         return keyed
-    if attr_chain(arg) == ['head_class', '__type_name__']:
+    c = attr_chain(arg)
+    if c and len(c) == 2 and c[1] == '__type_name__':
         return False
     raise TranslateError('Soap11.deserialize: unrecognised header lookup key')
 
@@ -260,8 +330,8 @@ def parser_flag(init, key):
 
 def generate(repo):
     cm = parse(repo, 'spyne/model/complex.py')
-    alt_inh = alt_inherited(cm)
     xml = parse(repo, 'spyne/protocol/xml.py')
+    alt_inh = alt_inherited(cm, xml)
     soap = parse(repo, 'spyne/protocol/soap/soap11.py')
     const = parse(repo, 'spyne/const/__init__.py')
     cxml = parse(repo, 'spyne/const/xml.py')
@@ -284,7 +354,7 @@ def generate(repo):
            '(* complex_from_element: n = number of occurrences seen *)',
            'Definition xw_read_multi (mo : ext) : bool := %s.' % multi,
            'Definition xw_freq_bad (n mn : Z) (mo : ext) : bool := %s.' % freq, '',
-           '(* ComplexModelMeta.__new__: a class starts from the _type_info_alt tables of its bases *)',
+           '(* the alternate keys of inherited members are in the table complex_from_element consults (flat_type_info.alt / cls._type_info_alt) *)',
            'Definition xw_alt_inherited : bool := %s.' % ('true' if alt_inh else 'false'), '',
            '(* Soap11.deserialize: header blocks are matched to the declared classes by {namespace}name (false: by local name) *)',
            'Definition xw_hdr_qualified : bool := %s.' % ('true' if hq else 'false'), '',
